@@ -48,6 +48,18 @@ PROPS = {
         trusted_base=["huandu/skiplist is abstracted as a list kept sorted by the code's comparator (validated by correspondence)"],
         assumptions=["(sender, sequence) unique among pending transactions and priorities above MinInt64 (the property's own precondition `Admissible`)"],
     ),
+    "C02": dict(
+        lean_modules=["PalomaModel.Props.C02"],
+        harness_test="TestC02",
+        n_quick=150, n_thorough=2000, thorough_seeds=8, timeout_quick=900,
+        spec_ops=[],
+        rule="per case: fresh skyway keeper fixture with 5 validators; 45 ops: votes (random validator or bursts of 2-4 validators, next/stale/gapped nonce, up to 3 competing deposit claims per nonce incl. one the handler cannot apply, "
+             "occasionally a remote height below an earlier one), end-blocks that first install a fresh power table (equal / tiny / random powers, extra outside power) and then tally (every 4th one at a multiple of 50: validator-nonce catch-up), "
+             "governance nonce overrides to last / last-1 / ahead; distinct = distinct op text; non-trivial = at least one attestation became observed",
+        trusted_base=[SDK_TRUST, "claim hashes are treated as injective identities (tmhash collision freeness); the claim's content is C11's subject",
+                      "one remote chain and one bridge deployment id (claims of other deployments are filtered out by GetAttestationMapping)"],
+        assumptions=["validators stay bonded (checkOrchestratorValidatorInSet); pruning (cutoff 1000 nonces) is not reached"],
+    ),
 }
 
 LEVEL_TEXT = ("Lean 4 theorems (all inputs / histories / fault points, no bounds) about an executable model of the code; the model is tied to the Go code on "
